@@ -86,7 +86,7 @@ def exO2 : Opts := { eliminateConstantAssignments := true, replaceParameterValue
 
 example : ∃ m', simplify (fun _ _ => exE) exO2 exM = .ok m' ∧ LoopPre exI exσ (fun _ _ => exE) exO2 50 0 exM ∧
     Sat exI exσ exM ∧ names m'.consts = ["x"] ∧ names m'.params = [] ∧ m'.eqs.length = 3 :=
-  ⟨_, rfl, loopPre_plain ⟨rfl, rfl, rfl⟩ _ _ _, exM_sat, by decide, by decide, by decide⟩
+  ⟨_, rfl, loopPre_plain ⟨rfl, rfl, rfl, rfl⟩ _ _ _, exM_sat, by decide, by decide, by decide⟩
 
 /-- `recorded_holds`: every constant value and every alias (sign included) recorded by `simplify`
     holds in every solution of the original model. -/
@@ -122,6 +122,20 @@ example : ∀ e ∈ exM.eqs, FactorPre e := by
   intro e he
   simp [exM] at he
   rcases he with rfl | rfl | rfl | rfl <;> simp [FactorPre]
+
+/-- `reduce_affine_expression` is exact under the property's precondition: when every equation is in
+    the affine fragment of the states, derivatives, algebraic states and inputs (`AffinePre`), each row
+    `Σ_x (∂e/∂x)(0) · x + e(0)` — the unknowns at 0, constants and parameters kept symbolic — has the value
+    of the equation it replaces, so the collapsed model has exactly the solutions of the model it was
+    given.  (Seed C14-3 evaluated the constants at 0 as well: `affineRow` substitutes the unknowns only.) -/
+theorem affine_collapse_exact {I : Interp K} {σ : Env K} {m : Model K} (h : AffinePre m) :
+    Sat I σ (reduceAffine m) ↔ Sat I σ m := reduceAffine_sat h
+
+example : AffinePre exM ∧ (reduceAffine exM).eqs.length = 4 := by
+  refine ⟨⟨by decide, ?_⟩, by decide⟩
+  intro e he
+  simp [exM] at he
+  rcases he with rfl | rfl | rfl | rfl <;> simp [AffineIn, FreeOf, Ex.syms, Model.affineVars, names, exM]
 
 /-- `resolve_parameter_values` only rewrites values by values: exact. -/
 theorem resolve_exact {I : Interp K} {E : Engine K} (hE : EngineOk I E) {σ : Env K} (m : Model K) :
